@@ -721,7 +721,10 @@ where
         let id = match code {
             Code::Terminal => 1,
             Code::AbsoluteID => decode_7bit(input)?,
-            Code::RelativeID => node_id - decode_7bit(input)?,
+            Code::RelativeID => match node_id.checked_sub(decode_7bit(input)?) {
+                Some(id) => id,
+                None => return err("then/else ID out of range"),
+            },
             Code::Relative1 => node_id - 1,
         };
         if id == 0 {
@@ -791,7 +794,9 @@ where
             }
         };
 
-        let level = suppvar_level_map[vid as usize];
+        let Some(&level) = suppvar_level_map.get(vid) else {
+            return err("variable ID out of range");
+        };
         if level >= t_level || level >= e_level {
             return err("node level must be less than the children's levels");
         }
